@@ -40,10 +40,11 @@ type depsIn struct {
 }
 
 type input struct {
-	Kind string  `json:"kind"` // "prog" | "deps"
-	Mode string  `json:"mode,omitempty"`
-	Prog *Prog   `json:"prog,omitempty"`
-	Deps *depsIn `json:"deps,omitempty"`
+	Kind string   `json:"kind"` // "prog" | "deps"
+	Mode string   `json:"mode,omitempty"`
+	Prog *Prog    `json:"prog,omitempty"`
+	Deps *depsIn  `json:"deps,omitempty"`
+	Src  *SrcProg `json:"src,omitempty"`
 }
 
 var modes = []string{"mixed", "mixed", "rec", "closure", "named", "literal", "cross", "forward"}
@@ -68,6 +69,22 @@ func (prop) Generate(r *core.RNG, tier string) []json.RawMessage {
 	}
 	for _, p := range fixedPrograms() {
 		add(input{Kind: "prog", Mode: "fixed", Prog: p})
+	}
+	// programs as Go source, Go-side oracles only (src.go): methods declared in a transitive dependency, variadic
+	// callees with listed and spread arguments, the same over the standard library
+	for _, sp := range fixedSrc() {
+		add(input{Kind: "src", Mode: "fixed", Src: sp})
+	}
+	nSrc := 16
+	if tier == "thorough" {
+		nSrc = 300
+	}
+	for i := 0; i < nSrc; i++ {
+		if i%2 == 0 {
+			add(input{Kind: "src", Mode: "trans", Src: genTrans(r.Fork())})
+		} else {
+			add(input{Kind: "src", Mode: "variadic", Src: genVariadic(r.Fork(), i%10 == 9)})
+		}
 	}
 	for i := 0; i < n; i++ {
 		mode := modes[i%len(modes)]
@@ -103,6 +120,8 @@ type superRes struct {
 	bases   map[string]int
 	loadErr string
 	spawns  int
+	// "[warning] ..." lines gengo's Load prints for packages with errors (type errors of a generated program)
+	warnings []string
 }
 
 // supervise runs the child until every call has an outcome; a crashing call is recorded and skipped.
@@ -173,6 +192,10 @@ func supervise(spec childSpec, scratch string, perCall, total time.Duration) sup
 					_ = json.Unmarshal([]byte(ln[2:]), &res.bases)
 				case strings.HasPrefix(ln, "E "):
 					res.loadErr = ln[2:]
+				case strings.HasPrefix(ln, "[warning]"):
+					if len(res.warnings) < 5 {
+						res.warnings = append(res.warnings, ln)
+					}
 				case strings.HasPrefix(ln, "B "):
 					var idx int
 					fmt.Sscanf(ln, "B %d", &idx)
@@ -368,6 +391,8 @@ func (prop) Run(in json.RawMessage, scratch string) core.Result {
 		return runDeps(inp, scratch)
 	case "prog":
 		return runProg(inp, scratch)
+	case "src":
+		return runSrc(inp, scratch)
 	}
 	return core.Result{Notes: []string{"unknown input kind"}}
 }
